@@ -542,6 +542,140 @@ M('C11', 'final-line-greedy', TY, "(?P<cleartext>(.*\\r?\\n)*(.*?(?=\\r?\\n-{5})
 T('C11', 'twin-sub-instead-of-subn', PGP, "        return re.subn(r'^- ', '', text, flags=re.MULTILINE)[0]", "        return re.sub(r'^- ', '', text, flags=re.MULTILINE)")
 T('C11', 'twin-strip-at-end-line', PGP, "            return re.subn(r'[ \\t]+(?=\\r?$)', '', self.message, flags=re.MULTILINE)[0]", "            return re.sub(r'[\\t ]+(?=\\r?$)', '', self.message, flags=re.MULTILINE)")
 
+# ---- C11 hardening: twins (every family a rule was made blind to) and new mutants (one or more per rewritten rule)
+_ESC = "        return re.subn(r'^-', '- -', text, flags=re.MULTILINE)[0]"
+_UNE = "        return re.subn(r'^- ', '', text, flags=re.MULTILINE)[0]"
+T('C11', 'twin-dash-compiled-constants', PGP, _UNE, "        unescaped = PGPMessage._dash_escaped_line.sub('', text)\n        return unescaped",
+  more=[(PGP, _ESC, "        escaped = PGPMessage._dash_leading_line.sub('- -', text)\n        return escaped"),
+        (PGP, "class PGPMessage(Armorable, PGPObject):\n", "class PGPMessage(Armorable, PGPObject):\n    _dash_escaped_line = re.compile(r'^- ', flags=re.MULTILINE)\n    _dash_leading_line = re.compile(r'^-', flags=re.MULTILINE)\n\n")])
+T('C11', 'twin-dash-inline-flag-positional', PGP, _ESC, "        return re.sub(r'(?m)^-', '- -', text)",
+  more=[(PGP, _UNE, "        return re.sub('^- ', '', text, 0, re.M)")])
+T('C11', 'twin-dash-group-backreference', PGP, _ESC, "        return re.sub(r'^(-)', r'- \\1', text, flags=re.MULTILINE)")
+T('C11', 'twin-dash-whole-match-reference', PGP, _ESC, "        return re.sub(r'^-', r'- \\g<0>', text, flags=re.M)")
+T('C11', 'twin-dash-lookahead-insert', PGP, _ESC, "        return re.sub(r'^(?=-)', '- ', text, flags=re.MULTILINE)")
+M('C11', 'escape-first-match-only', PGP, _ESC, "        return re.subn(r'^-', '- -', text, count=1, flags=re.MULTILINE)[0]", 'C11.1')
+M('C11', 'escape-start-of-text-only', PGP, _ESC, "        return re.subn(r'\\A-', '- -', text, flags=re.MULTILINE)[0]", 'C11.1')
+M('C11', 'escape-drops-dash', PGP, _ESC, "        return re.subn(r'^-', '- ', text, flags=re.MULTILINE)[0]", 'C11.1')
+M('C11', 'unescape-optional-space', PGP, _UNE, "        return re.subn(r'^- ?', '', text, flags=re.MULTILINE)[0]", 'C11.1')
+M('C11', 'unescape-only-before-dash', PGP, _UNE, "        return re.subn(r'^- (?=-)', '', text, flags=re.MULTILINE)[0]", 'C11.1')
+M('C11', 'unescape-any-dash-space', PGP, _UNE, "        return re.subn(r'- ', '', text, flags=re.MULTILINE)[0]", 'C11.1')
+M('C11', 'unescape-other-text', PGP, _UNE, "        return re.subn(r'^- ', '', text.strip(), flags=re.MULTILINE)[0]", 'C11')
+
+_MSTR = """        if self.type == 'cleartext':
+            tmpl = u"-----BEGIN PGP SIGNED MESSAGE-----\\n" \\
+                   u"{hhdr:s}\\n" \\
+                   u"{cleartext:s}\\n" \\
+                   u"{signature:s}"
+
+            # only add a Hash: header if we actually have at least one signature
+            hashes = set(s.hash_algorithm.name for s in self.signatures)
+            hhdr = 'Hash: {hashes:s}\\n'.format(hashes=','.join(sorted(hashes))) if hashes else ''
+
+            return tmpl.format(hhdr=hhdr,
+                               cleartext=self.dash_escape(self.bytes_to_text(self._message)),
+                               signature=super(PGPMessage, self).__str__())
+
+        return super(PGPMessage, self).__str__()
+"""
+T('C11', 'twin-str-early-return-concat', PGP, _MSTR, """        if self.type != 'cleartext':
+            return super(PGPMessage, self).__str__()
+
+        hash_names = {sig.hash_algorithm.name for sig in self.signatures}
+        if hash_names:
+            hash_header = 'Hash: ' + ','.join(sorted(hash_names)) + '\\n'
+        else:
+            hash_header = ''
+
+        escaped_text = self.dash_escape(self.bytes_to_text(self._message))
+        signature_block = super(PGPMessage, self).__str__()
+
+        return u"-----BEGIN PGP SIGNED MESSAGE-----\\n{hhdr:s}\\n{cleartext:s}\\n{signature:s}".format(
+            hhdr=hash_header, cleartext=escaped_text, signature=signature_block)
+""")
+T('C11', 'twin-str-fstring-list', PGP, _MSTR, """        armor = super().__str__()
+        if self.type == 'cleartext':
+            names = sorted(set([s.hash_algorithm.name for s in self._signatures]))
+            out = '-----BEGIN PGP SIGNED MESSAGE-----\\n'
+            if len(names) > 0:
+                out += f"Hash: {','.join(names)}\\n"
+            out += '\\n' + self.dash_escape(self.message) + '\\n'
+            return out + armor
+
+        return armor
+""")
+T('C11', 'twin-str-percent', PGP, "            hhdr = 'Hash: {hashes:s}\\n'.format(hashes=','.join(sorted(hashes))) if hashes else ''",
+  "            hhdr = ''\n            if hashes:\n                hhdr = 'Hash: %s\\n' % ','.join(sorted(hashes))")
+M('C11', 'hash-header-space-separated', PGP, "hashes=','.join(sorted(hashes))", "hashes=', '.join(sorted(hashes))", 'C11.3')
+M('C11', 'hash-header-first-signature-only', PGP, "            hashes = set(s.hash_algorithm.name for s in self.signatures)", "            hashes = set(s.hash_algorithm.name for s in self.signatures[:1])", 'C11.3')
+M('C11', 'hash-header-lowercase', PGP, "            hashes = set(s.hash_algorithm.name for s in self.signatures)", "            hashes = set(s.hash_algorithm.name.lower() for s in self.signatures)", 'C11.3')
+M('C11', 'hash-header-when-empty', PGP, "if hashes else ''", "if not hashes else ''", 'C11.3')
+M('C11', 'hash-header-no-blank-line', PGP, "                   u\"{hhdr:s}\\n\" \\\n", "                   u\"{hhdr:s}\" \\\n", 'C11.3')
+M('C11', 'escape-twice-on-write', PGP, "cleartext=self.dash_escape(self.bytes_to_text(self._message)),", "cleartext=self.dash_escape(self.dash_escape(self.bytes_to_text(self._message))),", 'C11.2')
+M('C11', 'write-raw-message-bytes', PGP, "cleartext=self.dash_escape(self.bytes_to_text(self._message)),", "cleartext=self.dash_escape(str(self._message)),", 'C11.2')
+M('C11', 'hash-reader-no-dash', TY, "(Hash:\\ (?P<hashes>[A-Za-z0-9\\-,]+)(?:\\r?\\n){2})?", "(Hash:\\ (?P<hashes>[A-Za-z0-9_]+)(?:\\r?\\n){2})?", 'C11.3')
+M('C11', 'hash-reader-one-newline', TY, "(Hash:\\ (?P<hashes>[A-Za-z0-9\\-,]+)(?:\\r?\\n){2})?", "(Hash:\\ (?P<hashes>[A-Za-z0-9\\-,]+)(?:\\r?\\n))?", 'C11.3')
+T('C11', 'twin-regex-newlines-spelled-out', TY, "(Hash:\\ (?P<hashes>[A-Za-z0-9\\-,]+)(?:\\r?\\n){2})?", "(Hash:\\ (?P<hashes>[-,0-9A-Za-z]+)\\r?\\n(?:\\r\\n|\\n))?",
+  more=[(TY, "(^-{5}BEGIN\\ PGP\\ SIGNED\\ MESSAGE-{5}(?:\\r?\\n)", "(^-{5}BEGIN\\ PGP\\ SIGNED\\ MESSAGE-{5}\\r?\\n"),
+        (TY, "(?P<cleartext>(.*\\r?\\n)*(.*?(?=\\r?\\n-{5})))(?:\\r?\\n)", "(?P<cleartext>(?:.*\\r?\\n)*(?:.*?(?=\\r?\\n-----)))\\r?\\n")])
+M('C11', 'final-line-greedy-noncapturing', TY, "(?P<cleartext>(.*\\r?\\n)*(.*?(?=\\r?\\n-{5})))(?:\\r?\\n)", "(?P<cleartext>(?:.*\\r?\\n)*(?:.*(?=\\r?\\n-{5})))(?:\\r?\\n)", 'C11.7')
+
+T('C11', 'twin-parse-unescape-temporary', PGP, "            self |= self.dash_unescape(unarmored['cleartext'])", "            text = unarmored['cleartext']\n            text = self.dash_unescape(text)\n            self |= text")
+M('C11', 'unescape-stripped-group', PGP, "            self |= self.dash_unescape(unarmored['cleartext'])", "            self |= self.dash_unescape(unarmored['cleartext'].strip())", 'C11.2')
+M('C11', 'unescape-result-dropped', PGP, "            self |= self.dash_unescape(unarmored['cleartext'])", "            self.dash_unescape(unarmored['cleartext'])\n            self |= unarmored['cleartext']", 'C11.2')
+
+_SD = "            return re.subn(r'[ \\t]+(?=\\r?$)', '', self.message, flags=re.MULTILINE)[0]"
+T('C11', 'twin-signed-data-compiled-inline-flag', PGP, _SD, "            stripped = PGPMessage._trailing_blanks.sub('', self.message)\n            return stripped",
+  more=[(PGP, "class PGPMessage(Armorable, PGPObject):\n", "class PGPMessage(Armorable, PGPObject):\n    _trailing_blanks = re.compile(r'(?m)[\\t ]+(?=\\r?$)')\n\n")])
+T('C11', 'twin-signed-data-ifexp', PGP, "        if self.type == 'cleartext':\n            # RFC 4880 7.1: trailing spaces and tabs of each line are not part of the signed text\n" + _SD + "\n\n        return self.message",
+  "        return re.sub('[ \\t]+(?=\\r?$)', '', self.message, flags=re.M) if self.type == 'cleartext' else self.message")
+M('C11', 'strip-star', PGP, _SD, "            return re.subn(r'[ \\t]*(?=\\r?$)', 'x', self.message, flags=re.MULTILINE)[0]", 'C11.4')
+M('C11', 'strip-before-newline-only', PGP, _SD, "            return re.subn(r'[ \\t]+(?=\\r?\\n)', '', self.message, flags=re.MULTILINE)[0]", 'C11.4')
+M('C11', 'strip-first-line-only', PGP, _SD, "            return re.subn(r'[ \\t]+(?=\\r?$)', '', self.message, count=1, flags=re.MULTILINE)[0]", 'C11.4')
+M('C11', 'strip-all-whitespace-class', PGP, _SD, "            return re.subn(r'[ \\t\\r]+(?=\\r?$)', '', self.message, flags=re.MULTILINE)[0]", 'C11.4')
+M('C11', 'strip-applied-to-literal-too', PGP, "            return re.subn(r'[ \\t]+(?=\\r?$)', '', self.message, flags=re.MULTILINE)[0]\n\n        return self.message",
+  "            return re.subn(r'[ \\t]+(?=\\r?$)', '', self.message, flags=re.MULTILINE)[0]\n\n        return self.message.strip()", 'C11.4')
+
+_SIGN = """        sig_type = SignatureType.BinaryDocument
+        hash_algo = prefs.pop('hash', None)
+
+        if subject is None:
+            sig_type = SignatureType.Timestamp
+
+        if isinstance(subject, PGPMessage):
+            if subject.type == 'cleartext':
+                sig_type = SignatureType.CanonicalDocument
+
+            subject = subject._signed_data
+
+        sig = PGPSignature.new(sig_type, self.key_algorithm, hash_algo, self.fingerprint.keyid, created=prefs.pop('created', None))
+"""
+T('C11', 'twin-sign-if-chain', PGP, _SIGN, """        hash_algo = prefs.pop('hash', None)
+
+        if subject is None:
+            sig_type = SignatureType.Timestamp
+
+        elif isinstance(subject, PGPMessage):
+            is_cleartext = subject.type == 'cleartext'
+            sig_type = SignatureType.CanonicalDocument if is_cleartext else SignatureType.BinaryDocument
+            subject = subject._signed_data
+
+        else:
+            sig_type = SignatureType.BinaryDocument
+
+        sig = PGPSignature.new(sig_type, self.key_algorithm, hash_algo, self.fingerprint.keyid,
+                               created=prefs.pop('created', None))
+""", more=[(PGP, "            _data += re.subn(br'\\r?\\n', b'\\r\\n', subject)[0]", "            canonical = re.sub(br'\\r?\\n', b'\\r\\n', subject)\n            _data += canonical")])
+M('C11', 'sign-view-only-for-literal', PGP, "                sig_type = SignatureType.CanonicalDocument\n\n            subject = subject._signed_data", "                sig_type = SignatureType.CanonicalDocument\n                subject = subject.message\n\n            else:\n                subject = subject._signed_data", 'C11.4')
+M('C11', 'cleartext-signed-as-standalone', PGP, "                sig_type = SignatureType.CanonicalDocument\n", "                sig_type = SignatureType.Standalone\n", 'C11.6')
+M('C11', 'literal-signed-as-text', PGP, "        if isinstance(subject, PGPMessage):\n            if subject.type == 'cleartext':\n                sig_type = SignatureType.CanonicalDocument", "        if isinstance(subject, PGPMessage):\n            if subject.type in ('cleartext', 'literal'):\n                sig_type = SignatureType.CanonicalDocument", 'C11.6')
+
+T('C11', 'twin-verify-extend-generators', PGP, "                for sig in _filter_sigs(subject.signatures):\n                    sspairs.append((sig, subject._signed_data))",
+  "                sspairs.extend((sig, subject._signed_data) for sig in _filter_sigs(subject.signatures))")
+T('C11', 'twin-verify-view-in-local', PGP, "                for sig in _filter_sigs(subject.signatures):\n                    sspairs.append((sig, subject._signed_data))",
+  "                signed_view = subject._signed_data\n                sspairs += [(s, signed_view) for s in _filter_sigs(subject.signatures)]")
+M('C11', 'verify-stripped-message', PGP, "                    sspairs.append((sig, subject._signed_data))", "                    sspairs.append((sig, subject.message.rstrip()))", 'C11.4')
+M('C11', 'verify-message-object', PGP, "                    sspairs.append((sig, subject._signed_data))", "                    sspairs.append((sig, subject))", 'C11.4')
+
 # =============================================================================================== C09
 M('C09', 'enc-191', TY, "            if 192 > nl:\n                return Header.int_to_bytes(nl)", "            if 191 > nl:\n                return Header.int_to_bytes(nl)", 'C09.1')
 M('C09', 'enc-8383', TY, "            elif 8384 > nl:\n                elen", "            elif 8383 > nl:\n                elen", 'C09.1')
